@@ -65,6 +65,7 @@ FIXED = [
     ('D5', 'C08', 'typedef finds its template', "a typedef of a template declared in a namespace that had been instantiated earlier failed (Cannot find class)"),
     ('D48', 'C02', 'only the leading component of a scoped name', "a qualified name whose last component is spelled like a template parameter (nsT::TT with TT a parameter) was rewritten (nsT::aab5): any component, not only the leading one, was taken for the parameter"),
     ('D52', 'C10', 'no longer crashes the MATLAB generator', "MATLAB generation raised TypeError (unhashable type: 'Typename') for a constructor or free-function parameter whose template argument is a template parameter (A(std::vector<T> x)): the instantiator stored a Typename object in Typename.name"),
+    ('D53', 'C16', 'wrap_submodule writes <stem>.cpp also for an interface file called', "wrap_submodule of an additional interface file called <name>.h wrote its C++ to a file <name>.h in the working directory (over the input when run next to it) instead of <name>.cpp"),
 ]
 
 # open findings: key, property, probe handler, what (printed in the KNOWN-FINDING line), mechanism, witness builder
